@@ -117,17 +117,19 @@ func valueNonNeg(v ssa.Value) bool {
 func evenLoopFacts(e *Env, at ssa.Instruction, facts []Fact) []Fact {
 	var out []Fact
 	// a list consumed two at a time: from  L − 2·K − 1 ≥ 0  (the rest is not empty) and L even follows  L − 2·K − 2 ≥ 0
+	// (any fact  L + even terms + odd constant ≥ 0  with L even has an odd left side, so it is ≥ 1: `2*j < len` gives `2*j + 1 < len`)
 	for _, f := range facts {
-		if !f.Lin || f.LE.k != -1 || len(f.LE.c) != 2 {
+		if !f.Lin || f.LE.k%2 == 0 || len(f.LE.c) < 2 {
 			continue
 		}
-		la, it := "", ""
+		la, it := "", "x"
 		for a, k := range f.LE.c {
 			switch {
-			case k == 1 && strings.HasPrefix(a, "len("):
+			case k == 1 && strings.HasPrefix(a, "len(") && la == "":
 				la = a
-			case k == -2 && strings.HasPrefix(a, "iter("):
-				it = a
+			case k%2 == 0:
+			default:
+				it = ""
 			}
 		}
 		if la == "" || it == "" {
